@@ -41,11 +41,14 @@ def main():
             rc, o = sh(f"go run ./{demo_dir}/zz_demo", cwd=wt, timeout=1200)
             shutil.rmtree(dst)
         else:
+            os.makedirs(f"{wt}/{demo_dir}", exist_ok=True)
             dst = f"{wt}/{demo_dir}/zz_demo{n}_test.go"
             shutil.copy(demo_src, dst)
             rc, o = sh(f"go test -vet=off -count=1 -run . ./{demo_dir}/ 2>&1 | tail -30", cwd=wt, timeout=1200)
             rc = 1 if ("FAIL" in o or "panic:" in o) else 0
             os.remove(dst)
+            if not os.listdir(f"{wt}/{demo_dir}"):
+                os.rmdir(f"{wt}/{demo_dir}")
         meta["ran"].append({"what": f"demonstration {label}", "exit": rc, "tail": o[-600:]})
         return rc
 
